@@ -125,6 +125,20 @@ func configs04(tier string) []xplore.Config {
 	// delivering what the subscriber may see
 	aclCfgs := []xplore.Config{{Name: "server WithACL denying t2 | stream *:[a] user=u | W(t2)=upd a/b;upd a/b, then idle past every time-out", Bound: bound,
 		Data: cfg08{stall: "never", script: []wop{{"upd", "a/b"}, {"upd", "a/b"}}, acl: true}}}
+	// a delete that removes MANY leaves (five, six) of a container while a newer
+	// leaf under the same path survives it: however the removals are announced,
+	// a subscriber's replay keeps the survivor
+	for _, n := range []int{2, 5, 6} {
+		sc := []wop{{"updf", "a/z"}}
+		for i := 1; i <= n; i++ {
+			sc = append(sc, wop{"upd", fmt.Sprintf("a/m%d", i)})
+		}
+		sc = append(sc, wop{"del", "a"})
+		for _, sp := range subs[:2] {
+			aclCfgs = append(aclCfgs, xplore.Config{Name: fmt.Sprintf("W(t1)=%s | %s (a delete removing %d+1 leaves, one newer leaf survives)", scriptName(sc), sp, n), Bound: bound - 1,
+				Data: cfg04{writers: []writer{{"t1", sc}}, subs: []subSpec{sp}}})
+		}
+	}
 	// a target removed by one goroutine while another re-creates it and writes
 	// to it (the configuration handler removing, a late manager goroutine
 	// adding): whatever the order, a leaf the cache ends up holding is one the
